@@ -198,11 +198,13 @@ fn one_input(run: &Run, len: usize, pat: usize, full_orders_up_to: usize, tot: &
         let mut keys: Vec<RecordKey> = store.keys().cloned().collect();
         keys.sort_by(|a, b| a.as_ref().cmp(b.as_ref()));
         for missing in &keys {
-            for public in [false, true] {
+            // the chunk is away for good / only the first time it is asked for (a code path that asks again gets it)
+            for (public, once) in [(false, false), (true, false), (false, true), (true, true)] {
                 if !public && *missing == key_of(&dm) {
                     continue; // the caller holds the data map itself
                 }
                 let (execs, _, nodes) = explore_seq(usize::MAX / 2, |ch| {
+                    let mut refused_once = false;
                     let mut rig = ClientRig::new();
                     let client = rig.client.clone();
                     let (dmc, addr) = (dm_chunk.clone(), dm_addr);
@@ -217,7 +219,12 @@ fn one_input(run: &Run, len: usize, pat: usize, full_orders_up_to: usize, tot: &
                         |pending| {
                             let i = if pending.len() == 1 { 0 } else { ch.choose(pending.len(), "answer") };
                             let k = &pending[i].key;
-                            let reply = if k == missing { Err(GetRecordError::RecordNotFound) } else { store.get(k).cloned().ok_or(GetRecordError::RecordNotFound) };
+                            let reply = if k == missing && !(once && refused_once) {
+                                refused_once = true;
+                                Err(GetRecordError::RecordNotFound)
+                            } else {
+                                store.get(k).cloned().ok_or(GetRecordError::RecordNotFound)
+                            };
                             (i, reply)
                         },
                     );
@@ -226,8 +233,8 @@ fn one_input(run: &Run, len: usize, pat: usize, full_orders_up_to: usize, tot: &
                         Some(Ok(bytes)) if bytes != data => run.violation(
                             "round-trip",
                             "other-bytes-when-a-chunk-is-unavailable",
-                            format!("one chunk was not returned by anybody, yet the fetch gave Ok with {} bytes that are not the {}-byte input ({desc}, public={public}, answer order {:?})", bytes.len(), data.len(), ch.choices()),
-                            json!({"case": desc, "public": public, "choices": ch.choices(), "missing": hex::encode(missing.as_ref())}),
+                            format!("one chunk was not returned {}, yet the fetch gave Ok with {} bytes that are not the {}-byte input ({desc}, public={public}, answer order {:?})", if once { "the first time it was asked for" } else { "by anybody" }, bytes.len(), data.len(), ch.choices()),
+                            json!({"case": desc, "public": public, "choices": ch.choices(), "missing": hex::encode(missing.as_ref()), "only_the_first_request_fails": once}),
                         ),
                         None => run.violation("round-trip", "blocked", format!("the fetch never completed with a chunk unavailable ({desc}, public={public})"), json!({"case": desc, "public": public, "choices": ch.choices()})),
                         _ => {}
@@ -298,7 +305,10 @@ pub fn main(tier: Option<&str>) {
         "shipped build (1 MiB chunks): lengths 0..=8 and 3*2^20 +-2, 3 content patterns, download batch 64. Small-chunk build (MAX_CHUNK_SIZE=1024, \
          download batch 3): every length 0..=4*MAX+2, k*MAX +-1 for k<=16(64), the lengths where the packed data map needs another level (found by \
          search, +-2), 3 content patterns; for inputs with <= 6 first-level chunks every answer order of the concurrently pending chunk fetches, up to 24 \
-         chunks every order with <= 2 deviations from FIFO, up to 64 chunks <= 1 deviation, beyond that the FIFO and the newest-first order only; both data_get (private data map) and data_get_public. Non-trivial = length >= 3.",
+         chunks every order with <= 2 deviations from FIFO, up to 64 chunks <= 1 deviation, beyond that the FIFO and the newest-first order only; both data_get (private data map) and data_get_public. Non-trivial = length >= 3. \
+         Each chunk of a small input in turn unavailable for good / the first time it is asked for. Upload layer: data_put and data_put_public with a receipt for every chunk through a harness network \
+         (shipped build: lengths 3, 4, 8; small build: 3, 100, 3 and 4 chunks + 1 byte, 6000, 12 chunks (thorough: up to 100 chunks)), which waiting put the network takes next is a choice \
+         (<= 1 deviation up to 4 chunks, FIFO beyond), faults: none, the k-th put refused, the k-th put acknowledged but lost (k < 4(8)).",
     );
     run.assume("contents: 3 patterns (zeros, counter, xorshift); the small-chunk build uses the self_encryption crate's own compile-time MAX_CHUNK_SIZE knob");
     if max != 1024 * 1024 {
